@@ -27,7 +27,7 @@ def oracle_c09(c, x):
 
 def check(v):
     run_codec_property(v, "C09", ["ser"], oracle_c09,
-                       rule_extra="Per load case: 17 successful loads (then dropped) and 28 failing loads, each bracketed by measurements of heap, mappings and descriptors.")
+                       rule_extra="Per load case: 17 successful loads (then dropped) and 36 failing loads, each bracketed by measurements of heap, mappings and descriptors.")
     c = campaign(v.tier)
     v.coverage["failing_loads_measured"] = sum(load_parts(c, x)[2].count("=") for x in c.cases)
     v.coverage["successful_loads_measured"] = sum(sum(1 for k in load_parts(c, x)[1] if k[-1:].isdigit()) for x in c.cases)
